@@ -7,7 +7,7 @@ OpsV == {"GoNew", "Sentinel", "Errno", "New", "Newf", "NewfW", "PkgNew", "Unimpl
          "AssertionFailedf", "ULeaf", "Wrap", "Wrapf", "WithMessage", "WithStack", "WithHint",
          "WithDetail", "WithSafeDetails", "WithTelemetry", "WithDomain", "WithIssueLink",
          "WithContextTags", "WithAssertionFailure", "Mark", "WithSecondaryError", "CombineErrors",
-         "Handled", "HandledWithMessage", "HandledInDomain", "HandledInDomainWithMessage",
+         "Handled", "HandledWithMessage", "HandledInDomain", "EnsureNotInDomain", "HandledInDomainWithMessage",
          "HandleAsAssertionFailure", "NewAssertionErrorWithWrappedErrf", "WrapWithHTTPCode",
          "GoWrap", "PkgWithMessage", "PkgWrap", "OsPathError", "OsLinkError", "OsSyscallError",
          "UWrap", "USafeDet", "Join", "GoJoin", "GoWrap2", "Hop", "HopU"}
